@@ -87,14 +87,14 @@ def c_outcome(o):
 
 def c_case(case, canon, obs, quirks):
     _SERR[0] = canon.get("serr")
-    kind = {"plain": "KPlain", "attr": "KAttr", "stream": "KStream"}.get(case["kind"])
+    kind = {"plain": "KPlain", "attr": "KAttr", "setattr": "KAttr", "stream": "KStream"}.get(case["kind"])   # attribute access: get or set
     if kind is None:
         kind = "(KBatch %s)" % clist(["(XInt %s)" % cZ(100 + i) for i in range(case.get("before", 0))])
     return ("{| cs_quirks := {| q_marshal_none_kwargs := %s; q_marshal_shallow := %s |}; cs_ser := %s; cs_kind := %s; "
             "cs_exc := {| e_cls := %s; e_args := %s; e_attrs := %s |}; cs_tb := (XStr %s); cs_before := %s; cs_out := %s; "
             "cs_server_open := %s; cs_client_conn := %s; cs_next_ok := %s |}") % (
         cbool(quirks["q_marshal_none_kwargs"]), cbool(quirks["q_marshal_shallow"]), SER_COQ[case["ser"]], kind,
-        c_cinfo(canon), clist([c_xval(a) for a in canon["args"]]), c_attrs(canon["attrs"]), ctext("TB:" + canon["entry"]),
+        c_cinfo(canon), clist([c_xval(a) for a in canon["args"]]), c_attrs(canon["attrs"]), ctext(c07impl.expected_token(canon["entry"])),
         cnat(obs["before"]), c_outcome(obs["out"]), cbool(obs["server_open"]), cbool(obs["client_conn"]), cbool(obs["next_ok"]))
 
 
@@ -146,9 +146,8 @@ def oracle(case, canon, obs):
             tok = [kv[1] for kv in out["attrs"] if kv[0] == "_pyroTraceback"]
             if not tok or not tok[0]:
                 bad.append(("traceback-missing", "%s: the exception carries no remote traceback" % where))
-            elif tok[0] != "TB:" + canon["entry"]:
-                bad.append(("traceback-of-another-call", "%s: the remote traceback text describes %s, not the call that failed (entry point %s)%s" % (
-                    where, tok[0][3:], canon["entry"], "; the same exception instance was raised before by a %s call" % case["prior"] if case.get("prior") else "")))
+            elif tok[0] != c07impl.expected_token(canon["entry"]):
+                bad.extend(tb_violation(where, tok[0], canon, case))
             if case["kind"] == "batch" and obs["before"] != case.get("before", 0):
                 bad.append(("batch-position", "%s: exception raised after %d results instead of %d" % (where, obs["before"], case.get("before", 0))))
     else:
@@ -164,14 +163,23 @@ def oracle(case, canon, obs):
                 bad.append(("no-pyro-error-for-unserialisable", "%s: caller got %s (%r) instead of a Pyro error describing %s" % (where, out.get("cls"), text[:120], short)))
         if k == "fallback" and ("Original exception: %s: %s" % (canon["typerepr"], canon["str"])) not in text:
             bad.append(("fallback-does-not-describe-original", "%s: the generic error %r does not name the original class and message (%s: %s)" % (where, text[:160], canon["typerepr"], canon["str"][:80])))
-        if k == "fallback" and out["tb"] and out.get("tbtok") != "TB:" + canon["entry"]:
-            bad.append(("traceback-of-another-call", "%s: the traceback sent with the generic error describes %s, not the call that failed (entry point %s)" % (where, (out.get("tbtok") or "TB:?")[3:], canon["entry"])))
+        if k == "fallback" and out["tb"] and out.get("tbtok") != c07impl.expected_token(canon["entry"]):
+            bad.extend(tb_violation(where + " (generic error)", out.get("tbtok") or "TB:?@?", canon, case))
         if k == "fallback" and not out["tb"]:
             bad.append(("traceback-missing", "%s: the fallback error carries no remote traceback" % where))
     if k not in ("local",) and not obs["next_ok"]:
         fam = "SecurityError" if SEC in mro else ("SerializeError" if SERR in mro else "other-class")
         bad.append(("dead-connection-after:" + fam, "%s: the next call on the same proxy failed with %s (server closed the connection after replying, client kept it)" % (where, obs.get("next_exc"))))
     return bad
+
+
+def tb_violation(where, tok, canon, case):
+    ent, _, site = tok[3:].partition("@")
+    if ent != canon["entry"]:
+        return [("traceback-of-another-call", "%s: the remote traceback text describes %s, not the call that failed (entry point %s)%s" % (
+            where, ent, canon["entry"], "; the same exception instance was raised before by a %s call" % case["prior"] if case.get("prior") else ""))]
+    return [("traceback-lacks-raise-site", "%s: the remote traceback text starts at the entry point %s but does not show the function and line that raised (%s, %d calls below the entry point)" % (
+        where, ent, c07impl.RAISE_FN, case.get("depth", 0) + 1))]
 
 
 # ---------------------------------------------------------------- generator
@@ -262,11 +270,17 @@ def gen_cases(ctx, classes):
                             "alt_args": sh[1:5]}
                     if kind == "batch":
                         case["before"] = rng.choice([0, 1, 1, 2, 3])
+                    if rng.random() < 0.45:
+                        case["depth"] = rng.choice(c07impl.DEPTHS[1:])       # raised that many calls below the entry point
+                    if rng.random() < (0.5 if kind in ("attr", "setattr") else 0.15):
+                        case["hooks"] = True                                 # target class defines __getattr__ / __setattr__
                     if rng.random() < 0.2:
                         # history: the same exception instance was already raised once, from another entry point
                         case["prior"] = rng.choice([k for k in c07impl.KINDS if k != kind])
                         if rng.random() < 0.3:
                             case["prior_ser"] = rng.choice(c07impl.SERIALIZERS)
+                        if rng.random() < 0.3:
+                            case["prior_depth"] = rng.choice(c07impl.DEPTHS)
                     cases.append(case)
     rng.shuffle(cases)
     return cases
@@ -307,6 +321,12 @@ def targeted():
                 ("__main__.DunderModuleError", ["m"], []),
             ]:
                 out.append(dict({"ser": ser, "kind": kind, "cls": cls, "args": args, "attrs": attrs}, **b))
+            for depth in c07impl.DEPTHS[1:]:
+                out.append(dict({"ser": ser, "kind": kind, "depth": depth, "cls": "builtins.ValueError", "args": ["deep", depth], "attrs": []}, **b))
+            out.append(dict({"ser": ser, "kind": kind, "depth": 200, "cls": "builtins.KeyError", "args": ["k"], "attrs": [["payload", dict(c07impl.OPAQUE)]]}, **b))
+            for hk_cls, hk_args, hk_attrs in [("builtins.AttributeError", ["no such thing", 3], [["foo", [1]]]), ("builtins.AttributeError", [], []),
+                                              ("builtins.ValueError", ["v"], [["foo", 1]]), ("builtins.LookupError", ["l"], [])]:
+                out.append(dict({"ser": ser, "kind": kind, "hooks": True, "cls": hk_cls, "args": hk_args, "attrs": hk_attrs}, **b))
             # histories: one exception instance raised twice, by two different entry points
             for prior in c07impl.KINDS:
                 if prior != kind:
@@ -404,7 +424,8 @@ def run(ctx, model_ok=True):
     res.extra["classes_exercised"] = len([c for c in classes if c in ran])
     res.extra["classes_never_constructible"] = sorted(c for c in classes if c not in ran)
     res.rule = ("every exception class of builtins and Pyro5.errors (plus three classes unknown to the receiver) x 4 serializers x "
-                "{plain call, exposed property, stream item, batch member at position 0..3} x generated args/attributes (names of every "
+                "{plain call, exposed property get, exposed property set, stream item, batch member at position 0..3} x target class "
+                "with / without __getattr__ and __setattr__ hooks x raise site 1, 2, 11, 61 or 201 calls below the dispatched function x generated args/attributes (names of every "
                 "shape vars(exc) can hold: plain, underscore, dunder incl. PEP 678 __notes__ via add_note, non-identifier strings) from "
                 "None/bool/int/str/list/dict, 5 in 12 with unserialisable content in args or attributes: a bare object(), objects whose "
                 "__getstate__ / unassigned slot / __dict__ property / dict or list protocol raises a class drawn from a pool of 16 "
